@@ -668,7 +668,7 @@ def mk_fields(spec):
     if t == "f":
         cls, shape, kw = mk_action_args(spec[1])
         key = len(repr(spec[1]))
-        if spec[1]["kind"] == "RW" and key % 3 == 0:
+        if spec[1]["kind"] == "RW" and key % 3 == 0 and not isinstance(shape, range):
             cls = user_rw(key // 3 % 4)       # a user-defined field action doing what RW does
         return csr.Field(cls, shape, **kw)
     if t == "d":
